@@ -1461,3 +1461,89 @@ def rf32t(run):
                               % (nm, 'not a known constant' if D is None else 'the constant %d' % D,
                                  'divisor zero' if (D is None or (D & ((1 << w) - 1)) == 0) else 'minimum value divided by -1'), line=guard['l'])
     return n
+
+
+# ---------------------------------------------------------------------------------------------
+# RF97: a call that receives alloca memory by value keeps every alloca location it may overlap live
+# ---------------------------------------------------------------------------------------------
+
+def rf97(run):
+    from lib import printexec as PE
+    rule = 'RF97'
+    run.rule(rule, 'dead store elimination, update_call_mem_live executed abstractly on a model call `f (x, blk:16(p))` where p is a phi of two '
+                   'alloca results (alloca flag MUST, its defining instruction is neither of the two ALLOCA instructions) and the memory '
+                   'table holds one location of each alloca: both locations must be made live by the call, since the block may be either; '
+                   'a refinement that compares defining instructions treats "different instruction" as "different memory" and drops the '
+                   'stores that fill the struct')
+    gen = run.tu('gen')
+    f = gen.func('update_call_mem_live')
+    run.functions_analysed.add(('gen', f.name))
+    codes = dict(gen.enum('MIR_insn_code_t'))
+    modes = dict(gen.enum('MIR_op_mode_t'))
+    ty = dict(gen.enum('MIR_type_t'))
+    items = dict(gen.enum('MIR_item_type_t'))
+    MUST, MAY = 2, 1
+    for g_ in gen.globals:
+        pass
+    heap = {
+        1: {'->code': codes['MIR_CALL'], '->nops': 4, '->ops[0].mode': modes['MIR_OP_REF'], '->ops[0].u.ref': 10,
+            '->ops[1].mode': modes['MIR_OP_VAR'], '->ops[1].data': 0,
+            '->ops[2].mode': modes['MIR_OP_VAR'], '->ops[2].data': 20,
+            '->ops[3].mode': modes['MIR_OP_VAR_MEM'], '->ops[3].data': 21, '->ops[3].u.var_mem.type': ty['MIR_T_BLK'], '->ops[3].u.var_mem.disp': 16},
+        10: {'->item_type': items['MIR_proto_item'], '->u.proto': 11}, 11: {'->nres': 0},
+        20: {'->def': 24}, 24: {'->alloca_flag': 0, '->insn': 25}, 25: {'->code': codes['MIR_MOV']},
+        21: {'->def': 22}, 22: {'->alloca_flag': MUST, '->insn': 23}, 23: {'->code': codes['MIR_PHI']},
+        30: {'->code': codes['MIR_ALLOCA']}, 31: {'->code': codes['MIR_ALLOCA']},
+    }
+    live = set()
+    glob = {}
+    for i, di in ((1, 30), (2, 31)):
+        glob['MA[%d].alloca_flag' % i] = MUST | MAY
+        glob['MA[%d].disp_def_p' % i] = 1
+        glob['MA[%d].def_insn' % i] = di
+        glob['MA[%d].disp' % i] = 0
+        glob['MA[%d].type' % i] = ty['MIR_T_I64']
+    glob['MA[0].alloca_flag'] = 0
+
+    def set_bit(args, env_, ex):
+        v = ex.val(args[1], env_)
+        if isinstance(v, int):
+            live.add(v)
+        return 1
+
+    def set_range(args, env_, ex):
+        a, b = ex.val(args[1], env_), ex.val(args[2], env_)
+        if isinstance(a, int) and isinstance(b, int):
+            live.update(range(a, a + b))
+        return 1
+
+    def get_def_disp(args, env_, ex):
+        # the address comes from the phi: its defining instruction is the PHI, displacement 0
+        a1 = F.strip(args[1])
+        if a1['k'] == 'UnaryOperator' and a1['op'] == '&':
+            env_[F.src(F.strip(a1['c'][0]))] = 0
+        return 23
+    acc = {'bitmap_set_bit_p': set_bit, 'bitmap_set_bit_range_p': set_range, 'get_def_disp': get_def_disp,
+           'VARR_mem_attr_tlength': lambda a, e, x: 3, 'VARR_mem_attr_taddr': lambda a, e, x: ('array', 'MA'),
+           '_MIR_type_size': lambda a, e, x: 8,
+           'MIR_blk_type_p': lambda a, e, x: int(ty['MIR_T_BLK'] <= x.val(a[0], e) < ty['MIR_T_RBLK']),
+           'MIR_all_blk_type_p': lambda a, e, x: int(ty['MIR_T_BLK'] <= x.val(a[0], e) <= ty['MIR_T_RBLK']),
+           'MIR_call_code_p': lambda a, e, x: 1}
+    ex = PE.PrintExec(gen, heap, acc, {})
+    ex.ev.globals = glob
+    env = {'call_insn': 1, 'mem_live': 99, 'gen_ctx->full_escape_p': 0, 'gen_ctx': 98}
+    for k_, v_ in heap[1].items():
+        env['call_insn' + k_] = v_
+        glob['call_insn' + k_] = v_    # seen from helpers that receive `&call_insn->ops[i]`
+    try:
+        ex.run(f.body, env)
+    except F.AnalysisBroken as exn:
+        raise F.AnalysisBroken('update_call_mem_live on the model call: %s' % exn)
+    ok = {1, 2} <= live
+    run.ob(rule, ('phi of two allocas',), ok, {'alloca locations made live by the call': sorted(live), 'required': [1, 2]})
+    if not ok:
+        run.violation(rule, f, 'block argument from a phi of allocas', 'for a by-value block argument whose address is a phi of two alloca results, '
+                      'update_call_mem_live makes only the locations %s live (both alloca locations 1 and 2 may hold the block): the stores '
+                      'that fill the struct chosen at run time are removed as dead and the native callee receives stale stack bytes'
+                      % sorted(live), line=f.line)
+    return 1
